@@ -64,8 +64,9 @@ func (s *sessStore) ReviseContract(rev contracts.SignedRevision, _ []types.Hash2
 // sessContracts is the contract manager stub: Lock returns what the store holds.
 type sessContracts struct {
 	stubContracts
-	st    *hostState
-	roots []types.Hash256
+	st     *hostState
+	roots  []types.Hash256
+	formed int
 }
 
 func (c *sessContracts) Lock(context.Context, types.FileContractID) (contracts.SignedRevision, error) {
@@ -77,6 +78,26 @@ func (c *sessContracts) ReviseContract(id types.FileContractID) (*contracts.Cont
 }
 func (c *sessContracts) SectorRoots(types.FileContractID) []types.Hash256 {
 	return append([]types.Hash256(nil), c.roots...)
+}
+
+// RenewContract: the store now holds the clearing revision for the old contract id.
+func (c *sessContracts) RenewContract(renewal, clearing contracts.SignedRevision, _ []types.Transaction, _ types.Currency, _, _ contracts.Usage) error {
+	c.st.commit(clearing, types.ZeroCurrency)
+	return nil
+}
+
+// AddContract: a new contract; the locked one is not touched.
+func (c *sessContracts) AddContract(contracts.SignedRevision, []types.Transaction, types.Currency, contracts.Usage) error {
+	c.mu.Lock()
+	defer c.mu.Unlock()
+	c.formed++
+	return nil
+}
+
+func (c *sessContracts) formedCount() int {
+	c.mu.Lock()
+	defer c.mu.Unlock()
+	return c.formed
 }
 
 // sessAcctStore is the account store behind the real accounts.Manager: funding an
@@ -123,22 +144,105 @@ func sessionRes(panicked bool, msg string, steps ...stepObs) string {
 	return "reject"
 }
 
-// ---- RHP2: Lock, RPC, [Unlock+Lock], RPC ------------------------------------------
+// ---- RHP2: [Lock], RPC, [Unlock+Lock], RPC ------------------------------------------
+
+// q2Step is one RPC of an RHP2 session.
+type q2Step struct {
+	k  string // s2roots s2read s2write (no sector actions) | renew2 | form2
+	p  rv     // revising RPCs: the revision the renter signs
+	f  rv     // renew2 / form2: the new contract
+	fv []types.Currency // renew2: the clearing values
+	rk int    // renew2 / form2: renter key of the new contract
+	bs int    // renew2 / form2: 1 = bad clearing signature, 2 = bad signature over the new contract
+}
+
+func (st q2Step) revising() bool { return st.k == "s2roots" || st.k == "s2read" || st.k == "s2write" }
 
 type q2Case struct {
 	c      rv
-	k      [2]string // s2roots s2read s2write (without sector actions)
-	p      [2]rv
+	st     [2]q2Step
 	relock bool
+	nolock bool // the session never locks a contract
 	h      uint64
 	s      st
 }
 
 func (k q2Case) enc() string {
-	p1, _ := siteCosts(siteCase{op: k.k[0], c: k.c, h: k.h, s: k.s})
-	q1, _ := siteCosts(siteCase{op: k.k[1], c: k.c, h: k.h, s: k.s})
-	return fmt.Sprintf("%s k1=%s %s relock=%d k2=%s %s h=%d %s price1=%s price2=%s", k.c.enc("c"), k.k[0], k.p[0].enc("p1"),
-		vhlib.B01(k.relock), k.k[1], k.p[1].enc("p2"), k.h, k.s.enc(), fmtCur(p1), fmtCur(q1))
+	out := k.c.enc("c")
+	for i, st := range k.st {
+		n := i + 1
+		out += fmt.Sprintf(" k%d=%s", n, st.k)
+		switch {
+		case st.revising():
+			price, _ := siteCosts(siteCase{op: st.k, c: k.c, h: k.h, s: k.s})
+			out += fmt.Sprintf(" %s price%d=%s", st.p.enc(fmt.Sprintf("p%d", n)), n, fmtCur(price))
+		case st.k == "renew2":
+			out += fmt.Sprintf(" %s fv%d=%s rk%d=%d bs%d=%d", st.f.enc(fmt.Sprintf("f%d", n)), n, fmtCurs(st.fv), n, st.rk, n, st.bs)
+		default:
+			out += fmt.Sprintf(" %s rk%d=%d bs%d=%d", st.f.enc(fmt.Sprintf("f%d", n)), n, st.rk, n, st.bs)
+		}
+	}
+	return out + fmt.Sprintf(" relock=%d nolock=%d h=%d %s", vhlib.B01(k.relock), vhlib.B01(k.nolock), k.h, k.s.enc())
+}
+
+// renterRenew2 is the renter side of rpcRenewAndClearContract inside a session; `before` is what the
+// store holds for the locked contract.
+func renterRenew2(t *rhp2.Transport, before types.FileContractRevision, st q2Step, oldKey types.PrivateKey) (hostSig types.Signature, clearing types.FileContractRevision, clearOK bool, err error) {
+	renterKey := renterKeys[st.rk]
+	txn := types.Transaction{FileContracts: []types.FileContract{st.f.contract()}}
+	req := &rhp2.RPCRenewAndClearContractRequest{Transactions: []types.Transaction{txn}, RenterKey: renterKey.PublicKey().UnlockKey(),
+		FinalValidProofValues: st.fv, FinalMissedProofValues: st.fv}
+	if err = t.WriteRequest(rhp2.RPCRenewClearContractID, req); err != nil {
+		return
+	}
+	var resp rhp2.RPCFormContractAdditions
+	if err = t.ReadResponse(&resp, 65536); err != nil {
+		return
+	}
+	clearing, cerr := rhp.ClearingRevision(before, st.fv)
+	clearOK = cerr == nil
+	if !clearOK { // the store's revision is already cleared: sign the values over it as it is
+		clearing = before
+	}
+	init := rhp.InitialRevision(txn, hostKey.PublicKey().UnlockKey(), renterKey.PublicKey().UnlockKey())
+	sig := signMaybe(renterKey, rhp.HashRevision(init), st.bs == 2)
+	sigs := &rhp2.RPCRenewAndClearContractSignatures{
+		RevisionSignature: types.TransactionSignature{ParentID: types.Hash256(init.ParentID),
+			CoveredFields: types.CoveredFields{FileContractRevisions: []uint64{0}}, Signature: sig[:]},
+		FinalRevisionSignature: signMaybe(oldKey, rhp.HashRevision(clearing), st.bs == 1),
+	}
+	if err = t.WriteResponse(sigs); err != nil {
+		return
+	}
+	var hostSigs rhp2.RPCRenewAndClearContractSignatures
+	if err = t.ReadResponse(&hostSigs, 65536); err != nil {
+		return
+	}
+	hostSig = hostSigs.FinalRevisionSignature
+	return
+}
+
+// renterForm2 is the renter side of rpcFormContract inside a session.
+func renterForm2(t *rhp2.Transport, st q2Step) error {
+	renterKey := renterKeys[st.rk]
+	txn := types.Transaction{FileContracts: []types.FileContract{st.f.contract()}}
+	req := &rhp2.RPCFormContractRequest{Transactions: []types.Transaction{txn}, RenterKey: renterKey.PublicKey().UnlockKey()}
+	if err := t.WriteRequest(rhp2.RPCFormContractID, req); err != nil {
+		return err
+	}
+	var resp rhp2.RPCFormContractAdditions
+	if err := t.ReadResponse(&resp, 65536); err != nil {
+		return err
+	}
+	init := rhp.InitialRevision(txn, hostKey.PublicKey().UnlockKey(), renterKey.PublicKey().UnlockKey())
+	sig := signMaybe(renterKey, rhp.HashRevision(init), st.bs == 2)
+	sigs := &rhp2.RPCFormContractSignatures{RevisionSignature: types.TransactionSignature{
+		ParentID: types.Hash256(init.ParentID), CoveredFields: types.CoveredFields{FileContractRevisions: []uint64{0}}, Signature: sig[:]}}
+	if err := t.WriteResponse(sigs); err != nil {
+		return err
+	}
+	var hostSigs rhp2.RPCFormContractSignatures
+	return t.ReadResponse(&hostSigs, 65536)
 }
 
 // renterRPC2 performs one revising RPC of an RHP2 session: the renter signs p and
@@ -245,12 +349,14 @@ func runQ2(k q2Case) (steps [2]stepObs, res string) {
 			t.SetChallenge(resp.NewChallenge)
 			return nil
 		}
-		if err := lock(); err != nil {
-			steps[0].err = err
-			return
+		if !k.nolock {
+			if err := lock(); err != nil {
+				steps[0].err = err
+				return
+			}
 		}
 		for i := 0; i < 2; i++ {
-			if i == 1 && k.relock {
+			if i == 1 && k.relock && !k.nolock {
 				if err := t.WriteRequest(rhp2.RPCUnlockID, nil); err != nil {
 					steps[1].err = err
 					return
@@ -259,17 +365,29 @@ func runQ2(k q2Case) (steps [2]stepObs, res string) {
 					return
 				}
 			}
-			before, n0 := state.get()
-			hostSig, want, wantOK, sigok, err := renterRPC2(t, k.k[i], before.Revision, k.p[i], len(roots), key)
-			after, n1 := state.get()
+			st := k.st[i]
 			o := &steps[i]
-			o.sigok, o.err = sigok, err
-			o.sig = checkSig(hostSig, want, wantOK)
+			before, n0 := state.get()
+			formed0 := cs.formedCount()
+			switch {
+			case st.revising():
+				hostSig, want, wantOK, sigok, err := renterRPC2(t, st.k, before.Revision, st.p, len(roots), key)
+				o.sigok, o.err = sigok, err
+				o.sig = checkSig(hostSig, want, wantOK)
+			case st.k == "renew2":
+				hostSig, clearing, clearOK, err := renterRenew2(t, before.Revision, st, key)
+				o.sigok, o.err = st.bs != 1, err
+				o.sig = checkSig(hostSig, clearing, clearOK)
+			default:
+				o.err = renterForm2(t, st)
+				o.sigok = st.bs != 2
+			}
+			after, n1 := state.get()
 			if n1 > n0 {
 				r := after.Revision
 				o.stored = &r
 			}
-			if o.stored != nil || o.sig != 0 {
+			if o.stored != nil || o.sig != 0 || cs.formedCount() > formed0 {
 				o.res = "accept"
 			} else {
 				o.res = "reject"
@@ -291,8 +409,19 @@ func doQ2(tr *vhlib.Trace, k q2Case) {
 }
 
 func decQ2(p vhlib.ParsedLine) q2Case {
-	return q2Case{c: decRev(p, "c"), k: [2]string{p.Args["k1"], p.Args["k2"]}, p: [2]rv{decRev(p, "p1"), decRev(p, "p2")},
-		relock: p.Int("relock") == 1, h: p.U64("h"), s: decSt(p)}
+	k := q2Case{c: decRev(p, "c"), relock: p.Int("relock") == 1, nolock: p.Int("nolock") == 1, h: p.U64("h"), s: decSt(p)}
+	for i := range k.st {
+		n := fmt.Sprint(i + 1)
+		st := q2Step{k: p.Args["k"+n], rk: p.Int("rk"+n) & 1, bs: p.Int("bs" + n)}
+		if st.revising() {
+			st.p = decRev(p, "p"+n)
+		} else {
+			st.f = decRev(p, "f"+n)
+			st.fv = decCurs(p, "fv"+n)
+		}
+		k.st[i] = st
+	}
+	return k
 }
 
 // ---- RHP3: RPCExecuteProgram paid by contract, then finalised ---------------------------
@@ -531,45 +660,152 @@ func sessSettings(r *vhlib.Rand) st {
 		RC: cur(vhlib.Pick(r, bi(0), bi(1), bi(100))), B: cur(vhlib.Pick(r, bi(1), bi(10), bi(1000)))}
 }
 
+// sessRenewal builds an honest renewal of e (RHP2 rules: the base revenue contains the contract price),
+// the clearing values paying the base RPC price, and the step.
+func sessRenewStep(r *vhlib.Rand, e rv, h uint64, s st) q2Step {
+	ws := h + s.WS + 10
+	we := ws + s.WS
+	if we < e.WE {
+		we = e.WE
+	}
+	we += pickU64(r, 0, 1, 50)
+	base, risk := baseFor(s.CP, s, e, we)
+	locked := bi(int64(r.Intn(1000)))
+	Hv := add(base, locked)
+	burn := upTo(r, add(base, risk))
+	if burn.Cmp(Hv) > 0 || r.Chance(1, 2) {
+		burn = bi(0)
+	}
+	f := rv{No: 0, WS: ws, WE: we, UH: 10, UC: 10, FS: e.FS, Root: e.Root,
+		V: []out{{1, cur(pow2(50))}, {s.Addr, cur(Hv)}},
+		M: []out{{1, cur(pow2(50))}, {s.Addr, cur(sub(Hv, burn))}, {0, cur(burn)}}}
+	R, H := getV(e.V, 0), getV(e.V, 1)
+	t := bigOf(s.B)
+	if t.Cmp(R) > 0 {
+		t = R
+	}
+	st := q2Step{k: "renew2", f: f, fv: []types.Currency{cur(sub(R, t)), cur(add(H, t))}}
+	switch r.Intn(12) {
+	case 0:
+		st.bs = 1 + r.Intn(2)
+	case 1:
+		st.fv[1] = cur(sub(bigOf(st.fv[1]), bi(1))) // host takes less than the renter gives
+	case 2:
+		st.f.WS = h // too soon
+	}
+	return st
+}
+
+func sessFormStep(r *vhlib.Rand, h uint64, s st) q2Step {
+	ws := h + s.WS + 5
+	H := add(bigOf(s.CP), bi(int64(r.Intn(1000))))
+	f := rv{No: 0, WS: ws, WE: ws + s.WS, UH: 10, UC: 10,
+		V: []out{{1, cur(pow2(50))}, {s.Addr, cur(H)}},
+		M: []out{{1, cur(pow2(50))}, {s.Addr, cur(H)}, {0, types.ZeroCurrency}}}
+	st := q2Step{k: "form2", f: f}
+	if r.Chance(1, 10) {
+		st.bs = 2
+	}
+	return st
+}
+
+// clearedOf is the clearing revision of e with the given values.
+func clearedOf(e rv, fv []types.Currency) rv {
+	c := e.clone()
+	c.No, c.FS, c.Root = math.MaxUint64, 0, 0
+	c.V = nil
+	for i, v := range fv {
+		c.V = append(c.V, out{getA(e.V, i), v})
+	}
+	c.M = append([]out(nil), c.V...)
+	return c
+}
+
 func genQ2(tr *vhlib.Trace, r *vhlib.Rand) {
 	ops := []string{"s2roots", "s2read", "s2write"}
-	k := q2Case{h: pickU64(r, 1, 1000), s: sessSettings(r), k: [2]string{ops[r.Intn(3)], ops[r.Intn(3)]}, relock: r.Chance(1, 6)}
+	k := q2Case{h: pickU64(r, 1, 1000), s: sessSettings(r), relock: r.Chance(1, 6)}
 	k.c = sessCurrent(r, k.h)
-	price := func(i int) *big.Int {
-		p, _ := siteCosts(siteCase{op: k.k[i], c: k.c, h: k.h, s: k.s})
+	price := func(op string) *big.Int {
+		p, _ := siteCosts(siteCase{op: op, c: k.c, h: k.h, s: k.s})
 		return bigOf(p)
 	}
-	t1 := add(price(0), vhlib.Pick(r, bi(0), bi(0), bi(int64(r.Intn(1000))), pow2(30)))
-	if r.Chance(1, 12) && price(0).Sign() > 0 {
-		t1 = sub(price(0), bi(1)) // step 1 underpays: the session ends there
+	revise := func(op string, base rv, no uint64, extra int64) q2Step {
+		return q2Step{k: op, p: payOn(base, no, add(price(op), bi(extra)), bi(0), false)}
 	}
-	k.p[0] = payOn(k.c, k.c.No+1, t1, bi(0), false)
-	t2 := add(price(1), vhlib.Pick(r, bi(0), bi(0), bi(int64(r.Intn(1000)))))
+	op1, op2 := ops[r.Intn(3)], ops[r.Intn(3)]
 	mode := ""
-	switch x := r.Intn(100); {
-	case x < 40: // honest: built on the revision the first RPC produced
-		k.p[1], mode = payOn(k.p[0], k.p[0].No+1, t2, bi(0), false), "fresh"
-	case x < 58: // built on the revision from BEFORE the first RPC, same number again
-		k.p[1], mode = payOn(k.c, k.p[0].No, t2, bi(0), false), "stale_same_number"
-	case x < 70: // built on the pre-first payouts with a higher number: the renter takes its first payment back
-		k.p[1], mode = payOn(k.c, k.p[0].No+1, t2, bi(0), false), "stale_higher_number"
-	case x < 85: // byte-for-byte replay of the first request
-		k.p[1], mode = k.p[0].clone(), "replay"
-	default: // built on the right revision with one hostile change
-		k.p[1], mode = payOn(k.p[0], k.p[0].No+1, t2, bi(0), false), "fresh_hostile"
-		switch r.Intn(5) {
-		case 0:
-			k.p[1].V[1].V = cur(sub(bigOf(k.p[1].V[1].V), bi(1)))
-		case 1:
-			k.p[1].M[1].V = cur(sub(bigOf(k.p[1].M[1].V), bi(1)))
-			k.p[1].M[2].V = cur(add(bigOf(k.p[1].M[2].V), bi(1)))
-		case 2:
-			k.p[1].No = k.p[0].No
-		case 3:
-			k.p[1] = payOn(k.p[0], k.p[0].No+1, sub(t2, bi(1)), bi(0), false)
-		case 4:
-			k.p[1].WS++
+	switch shape := r.Intn(100); {
+	case shape < 50: // two revising RPCs
+		t1 := add(price(op1), vhlib.Pick(r, bi(0), bi(0), bi(int64(r.Intn(1000))), pow2(30)))
+		if r.Chance(1, 12) && price(op1).Sign() > 0 {
+			t1 = sub(price(op1), bi(1)) // step 1 underpays: the session ends there
 		}
+		p1 := payOn(k.c, k.c.No+1, t1, bi(0), false)
+		k.st[0] = q2Step{k: op1, p: p1}
+		extra := int64(vhlib.Pick(r, 0, 0, r.Intn(1000)))
+		switch x := r.Intn(100); {
+		case x < 40: // honest: built on the revision the first RPC produced
+			k.st[1], mode = revise(op2, p1, p1.No+1, extra), "fresh"
+		case x < 58: // built on the revision from BEFORE the first RPC, same number again
+			k.st[1], mode = revise(op2, k.c, p1.No, extra), "stale_same_number"
+		case x < 70: // built on the pre-first payouts with a higher number: the renter takes its first payment back
+			k.st[1], mode = revise(op2, k.c, p1.No+1, extra), "stale_higher_number"
+		case x < 85: // byte-for-byte replay of the first request
+			k.st[1], mode = q2Step{k: op2, p: p1.clone()}, "replay"
+		default: // built on the right revision with one hostile change
+			k.st[1], mode = revise(op2, p1, p1.No+1, extra), "fresh_hostile"
+			p2 := &k.st[1].p
+			switch r.Intn(5) {
+			case 0:
+				p2.V[1].V = cur(sub(bigOf(p2.V[1].V), bi(1)))
+			case 1:
+				p2.M[1].V = cur(sub(bigOf(p2.M[1].V), bi(1)))
+				p2.M[2].V = cur(add(bigOf(p2.M[2].V), bi(1)))
+			case 2:
+				p2.No = p1.No
+			case 3:
+				*p2 = payOn(p1, p1.No+1, sub(price(op2), bi(1)), bi(0), false)
+			case 4:
+				p2.WS++
+			}
+		}
+	case shape < 74: // renew-and-clear, then another RPC on the same lock: the old contract is cleared
+		k.st[0] = sessRenewStep(r, k.c, k.h, k.s)
+		cleared := clearedOf(k.c, k.st[0].fv)
+		switch x := r.Intn(100); {
+		case x < 45: // a revising RPC built on the revision from before the renewal
+			k.st[1], mode = revise(op2, k.c, k.c.No+1, 0), "renew_then_stale_revise"
+		case x < 60: // ... built on the clearing revision (its number cannot increase any more)
+			k.st[1], mode = revise(op2, cleared, pickU64(r, math.MaxUint64, 0, 1), 0), "renew_then_revise_cleared"
+		case x < 85: // the same renewal again
+			k.st[1], mode = k.st[0], "renew_twice"
+		default:
+			k.st[1], mode = sessFormStep(r, k.h, k.s), "renew_then_form"
+		}
+	case shape < 84: // a revising RPC, then renew-and-clear built on the new / on the old revision
+		p1 := payOn(k.c, k.c.No+1, price(op1), bi(0), false)
+		k.st[0] = q2Step{k: op1, p: p1}
+		if r.Chance(2, 3) {
+			k.st[1], mode = sessRenewStep(r, p1, k.h, k.s), "revise_then_renew"
+		} else {
+			k.st[1], mode = sessRenewStep(r, k.c, k.h, k.s), "revise_then_stale_renew" // clearing values give the first payment back
+		}
+	case shape < 92: // formation of another contract, then a revising RPC on the locked one
+		k.st[0] = sessFormStep(r, k.h, k.s)
+		k.st[1], mode = revise(op2, k.c, k.c.No+1, 0), "form_then_revise"
+	case shape < 96: // no contract locked at all
+		k.nolock = true
+		if r.Chance(1, 2) {
+			k.st[0] = sessFormStep(r, k.h, k.s)
+			k.st[1], mode = revise(op2, k.c, k.c.No+1, 0), "nolock_form_then_revise"
+		} else {
+			k.st[0], mode = revise(op1, k.c, k.c.No+1, 0), "nolock_revise"
+			k.st[1] = sessRenewStep(r, k.c, k.h, k.s)
+		}
+	default:
+		p1 := payOn(k.c, k.c.No+1, price(op1), bi(0), false)
+		k.st[0] = q2Step{k: op1, p: p1}
+		k.st[1], mode = sessFormStep(r, k.h, k.s), "revise_then_form"
 	}
 	tr.Count("q2:" + mode)
 	countCur(tr, "q:", k.c)
